@@ -207,6 +207,13 @@ func BoolFact(b *ssa.BasicBlock, suffix string, want bool) bool {
 		if c, ok := v.(*ssa.Call); ok && strings.HasSuffix(suffix, "()") && core.MethodName(c.Common())+"()" == suffix && taken == want {
 			return true
 		}
+		// the same fact imported from a guard helper
+		if inner, bind := core.Unbind(v); bind != nil {
+			nv, nt := core.NormCond(inner, taken)
+			if c, ok := nv.(*ssa.Call); ok && strings.HasSuffix(suffix, "()") && core.MethodName(c.Common())+"()" == suffix && nt == want {
+				return true
+			}
+		}
 	}
 	return false
 }
@@ -321,5 +328,210 @@ func CreditsVia(fn *ssa.Function, field *types.Var) []ViaCredit {
 			out = append(out, vc)
 		}
 	}
+	return out
+}
+
+// ---------------------------------------------------------------------------------
+// Lifted calls: an effect of fn made directly or inside a same-package helper fn calls.
+// ---------------------------------------------------------------------------------
+
+// Lifted is a call as fn sees it. Site is the instruction of fn that performs it (the call
+// itself, or the outermost helper call); Call the actual call; Chain the helper calls from
+// fn down to Call's function; Arg(i) the i-th argument (receiver first for methods, as in
+// ssa.CallCommon.Args; for interface calls the receiver is Recv()) expressed in fn's values.
+type Lifted struct {
+	Site  ssa.Instruction
+	Call  *ssa.Call
+	Chain []*ssa.Call
+	bind  map[*ssa.Parameter]ssa.Value
+}
+
+func (l Lifted) bound(v ssa.Value) ssa.Value {
+	if l.bind == nil || v == nil {
+		return v
+	}
+	return core.BindValue(v, l.bind)
+}
+func (l Lifted) Arg(i int) ssa.Value    { return l.bound(l.Call.Call.Args[i]) }
+func (l Lifted) NArgs() int             { return len(l.Call.Call.Args) }
+func (l Lifted) Recv() ssa.Value        { return l.bound(core.Receiver(l.Call.Common())) }
+func (l Lifted) Direct() bool           { return len(l.Chain) == 0 }
+func (l Lifted) Block() *ssa.BasicBlock { return l.Site.Block() }
+func (l Lifted) Pos() token.Pos         { return l.Site.Pos() }
+
+// ErrFails: a non-nil error of the call fails fn (through every helper on the way).
+func (l Lifted) ErrFails() bool {
+	if core.ErrResult(l.Call) != nil && !core.ErrLeadsToFailure(l.Call) {
+		return false
+	}
+	for _, hc := range l.Chain {
+		if h := core.StaticCallee(hc.Common()); h != nil && core.ErrIndex(h) >= 0 && !core.ErrLeadsToFailure(hc) {
+			return false
+		}
+	}
+	return true
+}
+
+// MustInHelpers: inside every helper on the way, the next call down lies on every success
+// path (so "Site is passed" implies "Call is executed" unless the helper failed).
+func (l Lifted) MustInHelpers(p *core.Prog) bool {
+	for i, hc := range l.Chain {
+		h := core.StaticCallee(hc.Common())
+		var next ssa.Instruction = l.Call
+		if i+1 < len(l.Chain) {
+			next = l.Chain[i+1]
+		}
+		if ok, _ := MustPass(p, h, next); !ok {
+			return false
+		}
+	}
+	return true
+}
+
+// LiftCalls lists the calls matched by match that fn makes directly or through same-package
+// helpers (static callees with a body), to the given helper depth.
+func LiftCalls(fn *ssa.Function, match func(*ssa.CallCommon) bool, depth int) []Lifted {
+	var out []Lifted
+	var walk func(f *ssa.Function, chain []*ssa.Call, bind map[*ssa.Parameter]ssa.Value, d int, seen map[*ssa.Function]bool)
+	walk = func(f *ssa.Function, chain []*ssa.Call, bind map[*ssa.Parameter]ssa.Value, d int, seen map[*ssa.Function]bool) {
+		for _, cs := range core.CallsIn(f, false, nil) {
+			call, ok := cs.Instr.(*ssa.Call)
+			if !ok {
+				continue
+			}
+			if match(call.Common()) {
+				l := Lifted{Call: call, Chain: append([]*ssa.Call{}, chain...), bind: bind, Site: call}
+				if len(chain) > 0 {
+					l.Site = chain[0]
+				}
+				out = append(out, l)
+				continue
+			}
+			if d <= 0 {
+				continue
+			}
+			h := core.StaticCallee(call.Common())
+			if h == nil || h.Blocks == nil || h.Pkg != fn.Pkg || seen[h] || len(h.Params) != len(call.Call.Args) {
+				continue
+			}
+			nb := map[*ssa.Parameter]ssa.Value{}
+			for i, prm := range h.Params {
+				a := call.Call.Args[i]
+				if bind != nil {
+					a = core.BindValue(a, bind)
+				}
+				nb[prm] = a
+			}
+			seen[h] = true
+			walk(h, append(append([]*ssa.Call{}, chain...), call), nb, d-1, seen)
+			delete(seen, h)
+		}
+	}
+	walk(fn, nil, nil, depth, map[*ssa.Function]bool{fn: true})
+	return out
+}
+
+// CallArgs: the bound arguments without the receiver (as core.CallArgs).
+func (l Lifted) CallArgs() []ssa.Value {
+	var out []ssa.Value
+	for _, a := range core.CallArgs(l.Call.Common()) {
+		out = append(out, l.bound(a))
+	}
+	return out
+}
+
+// liftedBefore: a is executed before b on every path (sites in fn, or both inside the same
+// helper invocation).
+func liftedBefore(a, b Lifted) bool {
+	if a.Site == b.Site {
+		return Before(a.Call, b.Call)
+	}
+	return Before(a.Site, b.Site)
+}
+
+// SliceB is core.Slice through a helper binding: roots that are parameters of the helper are
+// replaced by the roots of the bound arguments.
+func SliceB(v ssa.Value) []core.Root {
+	inner, bind := core.Unbind(v)
+	rs := core.Slice(inner)
+	if bind == nil {
+		return rs
+	}
+	var out []core.Root
+	for _, rt := range rs {
+		if prm, ok := rt.V.(*ssa.Parameter); ok {
+			if a, ok := bind[prm]; ok {
+				out = append(out, SliceB(a)...)
+				continue
+			}
+		}
+		out = append(out, rt)
+	}
+	return out
+}
+
+// ValueLeaves expands v through phis and through calls of same-module helpers with a body
+// (each return of the helper contributes its result, bound to the call's arguments) and
+// returns the leaf values, expressed in the frame of v's function where possible.
+func ValueLeaves(v ssa.Value, depth int) []ssa.Value {
+	var out []ssa.Value
+	seen := map[ssa.Value]bool{}
+	var walk func(v ssa.Value, bind map[*ssa.Parameter]ssa.Value, d int)
+	walk = func(v ssa.Value, bind map[*ssa.Parameter]ssa.Value, d int) {
+		if inner, b2 := core.Unbind(v); b2 != nil {
+			v, bind = inner, b2
+		}
+		wrap := func(x ssa.Value) ssa.Value {
+			if bind != nil {
+				return core.BindValue(x, bind)
+			}
+			return x
+		}
+		if seen[v] && bind == nil {
+			return
+		}
+		seen[v] = true
+		if d > 8 {
+			out = append(out, wrap(v))
+			return
+		}
+		switch x := v.(type) {
+		case *ssa.Phi:
+			for _, e := range x.Edges {
+				walk(e, bind, d+1)
+			}
+			return
+		case *ssa.Parameter:
+			if a, ok := bind[x]; ok {
+				walk(a, nil, d+1)
+				return
+			}
+		case *ssa.Call, *ssa.Extract:
+			call, idx := core.CallOf(x)
+			if idx < 0 {
+				idx = 0
+			}
+			if call != nil && depth > 0 {
+				h := core.StaticCallee(call.Common())
+				if h != nil && h.Blocks != nil && h.Pkg != nil && core.IsModule(h.Pkg.Pkg.Path()) && len(h.Params) == len(call.Call.Args) && h != call.Parent() {
+					nb := map[*ssa.Parameter]ssa.Value{}
+					for i, prm := range h.Params {
+						nb[prm] = wrap(call.Call.Args[i])
+					}
+					depth--
+					for _, ret := range core.Returns(h) {
+						if ret.Block() == h.Recover || idx >= len(ret.Results) {
+							continue
+						}
+						walk(core.ResultValue(ret, idx), nb, d+1)
+					}
+					depth++
+					return
+				}
+			}
+		}
+		out = append(out, wrap(v))
+	}
+	walk(v, nil, 0)
 	return out
 }
